@@ -9,6 +9,17 @@ NOTE_COMMON = ("Trusted: Lean 4.33 kernel; axioms ⊆ {propext, Classical.choice
                "implementation by differential execution (sampled), not by proof. ")
 
 CLAIMED = {
+ "C01": dict(
+   text=("Lean theorems for digit strings of ANY width: SRT hh:mm:ss[,fff] (srt_stamp_denotes, srt_stamp_no_fraction), WebVTT [h+:]mm:ss.fff with arbitrary "
+         "trailing text (vtt_stamp_hms, vtt_stamp_ms), DFXP clock times plain / with a fraction of any length / with frames (dfxp_clock_*) denote exactly the "
+         "stated instants (floor of an exact rational); multipliers, frame base and the regex texts are regenerated from /repo and pinned. Executable models of "
+         "the complete readers' time handling (SRT block scan, WebVTT cue loop with time shift and validation, MicroDVD lines with fps header, DFXP begin/end/dur "
+         "with all offset metrics, SAMI end back-filling with the 4 s tail) are compared with the implementation and with an independent denotation on "
+         "documents rendered by the harness's own serialisers in every spelling, plus a malformed stream for the error branches."),
+   ref="§3 C01", technique="Lean 4 proof (string induction: split/span lemmas) + pinned constants/patterns + differential correspondence on generated documents",
+   note=NOTE_COMMON + "Document-level theorems (srt_doc_cues, vtt_doc_cues, sami_backfill, DFXP offsets) are not proved yet: those parts are model + correspondence + independent spec only. "
+        "XML/HTML tokenisation (bs4/lxml/html.parser) is library code tied by correspondence. SRT blocks without any text line and digits outside ASCII are outside the modelled domain."),
+
  "C13": dict(
    text=("Lean theorems over exact rationals: Size.as_percentage_of returns exactly px*100/dim, em*16, pt*4/3, cells/32|15 for every value and dimension "
          "(relativize_exact), refuses with the relativization error when the dimension is missing (relativize_refuses), always yields a percentage "
